@@ -462,6 +462,8 @@ static CACHE: OnceLock<LruCache<CipherKey, CipherMethod>> = OnceLock::new();
 
 unsafe fn get_cipher(kind: CipherKind, key: &[u8], session_id: u64) -> &CipherMethod {
     #[cfg(octo_verif)]
+    crate::verif::sync_point("cache.before");
+    #[cfg(octo_verif)]
     let _region = crate::verif::Region::enter("cache");
     let cache = CACHE.get_or_init(|| LruCache::with_expiry_duration_and_capacity(Duration::from_secs(30), 102400));
     let cache = unsafe { std::ptr::from_ref(cache).cast_mut().as_mut().expect("empty cipher cache") };
